@@ -16,12 +16,16 @@ def hellinger(x, y):
         l1_norm_x += x[i]
         l1_norm_y += y[i]
 
+    sqrt_norm_prod = np.sqrt(l1_norm_x * l1_norm_y)
+
     if l1_norm_x == 0 and l1_norm_y == 0:
         return 0.0
     elif l1_norm_x == 0 or l1_norm_y == 0:
         return 1.0
+    elif result > sqrt_norm_prod:
+        return 0.0
     else:
-        return np.sqrt(1 - result / np.sqrt(l1_norm_x * l1_norm_y))
+        return np.sqrt(1 - result / sqrt_norm_prod)
 
 
 @numba.njit()
